@@ -511,6 +511,16 @@ func ruleFatalCloses(r *Run, p *Prog, rule string) {
 		return ""
 	}
 	// every path ends in exit; on paths where the writer is an io.Closer, close precedes exit
+	// a method value (l.exit) is a synthetic bound-method wrapper around the real method
+	if cl.Synthetic != "" {
+		eachInstr(cl, func(b *ssa.BasicBlock, i int, in ssa.Instruction) {
+			if cc := callCommon(in); cc != nil {
+				if sc := staticCallee(cc); sc != nil && InModule(sc) && sc.Synthetic == "" {
+					cl = sc
+				}
+			}
+		})
+	}
 	cl = p.View(cl, "", nil)
 	paths, _ := enumPaths(cl, 1, 1000)
 	okAll := len(paths) > 0
